@@ -97,7 +97,14 @@ class FunctionVerifier:
         self.db = db
         self.c = contract
         self.lib = lib or build_lib()
-        self.finfo = repo.func(contract.fn)
+        if contract.harness_src is not None:
+            import ast as _ast
+            from .loader import FuncInfo
+            mod = repo.module(contract.harness_module)
+            node = _ast.parse(contract.harness_src).body[0]
+            self.finfo = FuncInfo(contract.fn.split("::")[1], contract.harness_module, node, None, mod, [], contract.harness_src)
+        else:
+            self.finfo = repo.func(contract.fn)
         self.extra_hooks = extra_hooks or {}
 
     # ------------------------------------------------------------------
@@ -153,6 +160,8 @@ class FunctionVerifier:
         ip = ContractInterp(self.repo, self.db, st, self.lib)
         ip.current_contract = c
         ip.verified_finfo = self.finfo
+        ip.harness_mode = c.harness_src is not None
+        st.float_model = c.float_model
         for k, h in self.extra_hooks.items():
             setattr(ip, k, h)
         fi = self.finfo
